@@ -325,6 +325,10 @@ def run_case(seed):
 MODEL = True
 
 
+def two_dirs_combine(seed):
+    return core.two_dirs_case(PID, 'combine', seed)
+
+
 def run(tier, seed):
     rep = core.Report(PID, tier, seed)
     pg = core.proof_gate(PID, thorough=(tier == 'thorough'))
@@ -336,6 +340,8 @@ def run(tier, seed):
     ncases = 60 if tier == 'quick' else 800
     cases = [seed * 100000 + 6000 + i for i in range(ncases)]
     for r in core.run_cases(run_case, core.with_corpus(PID, cases)):
+        rep.merge(r)
+    for r in core.run_cases(two_dirs_combine, [seed * 100000 + 99000 + i for i in range(1 if tier == 'quick' else 5)]):
         rep.merge(r)
     rep.obligation('correspondence: Writers.Combine.combine = output directory of combine (binary files byte for byte, level headers '
                    'token for token, global header with floats by value)',
